@@ -10,6 +10,7 @@ from ..context import Ctx
 from ..dataflow import flow_of
 from ..program import FunctionInfo, dotted, norm, own_nodes
 from ..report import RuleResult
+from ..shape import facts_at, inline_locals, ntext
 
 
 def _rets(f: FunctionInfo) -> List[ast.Return]:
@@ -21,7 +22,7 @@ def _is_empty_sid(e: Optional[ast.AST]) -> bool:
 
 
 def _const_index_on_field_keys(e: ast.AST) -> Optional[int]:
-    """list(self._fields.keys() [or ...])[i]  /  list(self._fields)[i]  -> i"""
+    """list(self._fields.keys() [or ...])[i]  /  list(self._fields)[i]  -> i   (after local names were inlined)"""
     if not isinstance(e, ast.Subscript):
         return None
     try:
@@ -43,28 +44,20 @@ def rule_nav(ctx: Ctx) -> RuleResult:
     p = ctx.p
     # ---- parent ----------------------------------------------------------------------------------
     f = p.function("spil.sid.sid.TypedSid.parent")
-    flow = flow_of(f.node)
     rets = _rets(f)
-    main = [r for r in rets if isinstance(r.value, ast.Call) and isinstance(r.value.func, ast.Attribute) and r.value.func.attr == "get_as"]
+    main = [r for r in rets if isinstance(r.value, ast.Call) and isinstance(r.value.func, ast.Attribute) and r.value.func.attr == "get_as"
+            and norm(r.value.func.value) == "self"]
     ok = len(main) == 1 and len(main[0].value.args) == 1
     if ok:
-        arg = main[0].value.args[0]
-        idx = None
-        if isinstance(arg, ast.Name):
-            at = flow.node_of(main[0])
-            ds = flow.defs_reaching(at.id, arg.id)
-            if len(ds) == 1 and ds[0].value is not None:
-                idx = _const_index_on_field_keys(ds[0].value)
-        else:
-            idx = _const_index_on_field_keys(arg)
-        ok = idx == -2
+        arg = inline_locals(f, main[0].value.args[0], main[0])
+        ok = _const_index_on_field_keys(arg) == -2
     empties = [r for r in rets if _is_empty_sid(r.value)]
     copies = [r for r in rets if isinstance(r.value, ast.Call) and norm(r.value) == "self.copy()"]
     if ok and empties and copies:
         res.ok("TypedSid.parent", "empty Sid when untyped; self.copy() for one field; otherwise get_as(second-to-last key)")
     else:
-        res.violation(["spil.sid.sid.TypedSid.parent", "shape"], "TypedSid.parent is not `get_as(list(fields.keys())[-2])` with the untyped "
-                                                                 "and one-field fallbacks", f.relpath, f.node.lineno)
+        res.violation(["spil.sid.sid.TypedSid.parent", "shape"], "TypedSid.parent is not `get_as(<second-to-last key of the fields>)` with the "
+                                                                 "untyped and one-field fallbacks", f.relpath, f.node.lineno)
     # ---- get_as -----------------------------------------------------------------------------------------
     g = p.function("spil.sid.sid.TypedSid.get_as")
     gflow = flow_of(g.node)
@@ -111,7 +104,7 @@ def rule_nav(ctx: Ctx) -> RuleResult:
         res.ok("TypedSid.get_as", "copies the pairs up to and including the key into a fresh dict and rebuilds through Sid(fields=...)")
     # ---- keytype / basetype / get / __truediv__ ---------------------------------------------------------
     kt = p.function("spil.sid.sid.TypedSid.keytype")
-    main = [r for r in _rets(kt) if r.value is not None and _const_index_on_field_keys(r.value) == -1]
+    main = [r for r in _rets(kt) if r.value is not None and _const_index_on_field_keys(inline_locals(kt, r.value, r)) == -1]
     if main:
         res.ok("TypedSid.keytype", "last key of the fields")
     else:
@@ -155,7 +148,6 @@ def rule_update(ctx: Ctx) -> RuleResult:
     res = RuleResult("R-UPDATE")
     f = ctx.p.function("spil.sid.core.query_helper.update")
     flow = flow_of(f.node)
-    cfg = cfg_of(f.node)
     data_p, query_p = f.params[0], f.params[1]
     stores = [n for n in own_nodes(f.node) if isinstance(n, ast.Assign) and isinstance(n.targets[0], ast.Subscript)]
     res.floor(len(stores), 1, "stores in query_helper.update")
@@ -166,29 +158,38 @@ def rule_update(ctx: Ctx) -> RuleResult:
         al = flow.aliases(tgt.value, at.id)
         if any(a.kind == "param" for a in al):
             problems.append(f"`{norm(st)}` writes into the caller's dictionary (no copy before the first store)")
-        tests = ctx.ef._dominating_tests(cfg, st)
+        # the store happens under (key in data) or (not optional): some dominating test must mention both the membership
+        # of the key in the working dictionary and a flag that derives from a startswith(option_prefix) test
         cond_ok = False
-        for t, lab in tests:
-            if lab == "true" and isinstance(t, ast.BoolOp) and isinstance(t.op, ast.Or) and len(t.values) == 2:
-                a, b = t.values
-                has_in = isinstance(a, ast.Compare) and isinstance(a.ops[0], ast.In) and norm(a.left) == norm(tgt.slice) \
-                    and norm(a.comparators[0]).split(".keys")[0] == norm(tgt.value)
-                has_not_opt = isinstance(b, ast.UnaryOp) and isinstance(b.op, ast.Not)
-                if has_in and has_not_opt:
-                    cond_ok = True
-                    # the optional flag comes from a startswith(option_prefix) test
-                    deps = flow.depends(b.operand, at.id)
-                    if not any(a_.kind == "const" and a_.text in ("True", "False") for a_ in deps):
-                        cond_ok = False
+        for t, lab in ctx.ef._dominating_tests(cfg_of(f.node), st):
+            if lab != "true":
+                continue
+            has_in = any(isinstance(x, ast.Compare) and isinstance(x.ops[0], ast.In) and norm(x.left) == norm(tgt.slice)
+                         and norm(x.comparators[0]).split(".keys")[0] == norm(tgt.value) for x in ast.walk(t))
+            flag_ok = False
+            for x in ast.walk(t):
+                if isinstance(x, ast.UnaryOp) and isinstance(x.op, ast.Not):
+                    deps = flow.depends(x.operand, at.id)
+                    if any(a.kind == "call" and a.text.endswith(".startswith") for a in deps):
+                        flag_ok = True
+                    # or control dependence: the flag is set to constants under a startswith(...) test
+                    if isinstance(x.operand, ast.Name):
+                        for d in flow.defs_reaching(at.id, x.operand.id):
+                            dn = next((n for n in own_nodes(f.node) if isinstance(n, ast.Assign) and n.value is d.value), None)
+                            if dn is not None and any(any(isinstance(c, ast.Call) and isinstance(c.func, ast.Attribute)
+                                                          and c.func.attr == "startswith" for c in ast.walk(tt))
+                                                      for tt, _ in ctx.ef._dominating_tests(cfg_of(f.node), dn)):
+                                flag_ok = True
+            if has_in and flag_ok and isinstance(t, ast.BoolOp) and isinstance(t.op, ast.Or):
+                cond_ok = True
         if not cond_ok:
-            problems.append(f"`{norm(st)}` is not under `key in data or not optional`")
-    # the stored value of an optional entry is stripped of the prefix
+            problems.append(f"`{norm(st)}` is not under `key in data or not <optional>` with the optional flag taken from "
+                            f"startswith(option_prefix)")
     strip = any(isinstance(n, ast.Call) and isinstance(n.func, ast.Attribute) and n.func.attr in ("replace", "removeprefix", "lstrip")
-                and n.args and norm(n.args[0]) == "option_prefix" for n in own_nodes(f.node)) or any(
-        isinstance(n, ast.Subscript) and isinstance(n.slice, ast.Slice) for n in own_nodes(f.node))
-    sw = any(isinstance(n, ast.Call) and isinstance(n.func, ast.Attribute) and n.func.attr == "startswith" for n in own_nodes(f.node))
-    if not (strip and sw):
-        problems.append("the optional prefix is not tested with startswith and removed from the value")
+                and n.args and "option_prefix" in norm(n.args[0]) for n in own_nodes(f.node)) or any(
+        isinstance(n, ast.Subscript) and isinstance(n.slice, ast.Slice) and "option_prefix" in norm(n.slice) for n in own_nodes(f.node))
+    if not strip:
+        problems.append("the optional prefix is not removed from the value")
     rets = _rets(f)
     if not all(r.value is not None and not any(a.kind == "param" and a.text == data_p for a in flow.aliases(r.value)) for r in rets):
         problems.append("returns the caller's dictionary")
@@ -209,7 +210,7 @@ def rule_ret3(ctx: Ctx) -> RuleResult:
     cfg = cfg_of(f.node)
     P = {"string": f.params[0], "query": f.params[1], "type": f.params[2], "fields": f.params[3]}
     rets = _rets(f)
-    res.floor(len(rets), 4, "return statements of apply_query")
+    res.floor(len(rets), 3, "return statements of apply_query")
     d2t = [n for n in own_nodes(f.node) if isinstance(n, ast.Call) and (dotted(n.func) or "").endswith("dict_to_type")]
     upd = [n for n in own_nodes(f.node) if isinstance(n, ast.Call) and (dotted(n.func) or "") == "update"]
     if len(d2t) != 1 or len(upd) != 1:
@@ -224,15 +225,12 @@ def rule_ret3(ctx: Ctx) -> RuleResult:
     if not (norm(upd[0].args[0]) == P["fields"] and norm(upd[0].args[1]) == P["query"]):
         res.violation([f.qualname, "overlay"], f"apply_query: the overlay is not update({P['fields']}, {P['query']})", f.relpath, upd[0].lineno)
     d2t_node = cfg.node_of(d2t_call)
-    new_types_var = None
-    for d in flow.all_defs:
-        if d.value is d2t_call:
-            new_types_var = d.var
-    new_data_var = None
-    for d in flow.all_defs:
-        if d.value is upd[0]:
-            new_data_var = d.var
+    new_types_var = next((d.var for d in flow.all_defs if d.value is d2t_call), None)
+    new_data_var = next((d.var for d in flow.all_defs if d.value is upd[0]), None)
+    if norm(d2t_call.args[0]) != new_data_var:
+        res.violation([f.qualname, "types of the overlay"], "apply_query does not ask for the types of the overlaid fields", f.relpath, d2t_call.lineno)
     type_alias = [d for d in flow.all_defs if d.kind == "assign" and isinstance(d.value, ast.Name) and d.value.id == P["type"]]
+    NT = new_types_var
     for r in rets:
         v = r.value
         site = f"apply_query: `{norm(r)[:70]}`"
@@ -247,10 +245,12 @@ def rule_ret3(ctx: Ctx) -> RuleResult:
         t_defs = flow.defs_reaching(at.id, Tt.id) if isinstance(Tt, ast.Name) else []
         t_old_only = isinstance(Tt, ast.Name) and (Tt.id == P["type"] or (t_defs and all(d in type_alias for d in t_defs)))
         s_deps = flow.depends(S, at.id)
-        s_has_query = any(a.kind == "param" and a.text == P["query"] for a in s_deps)
+        # follow same-module helpers such as _with_query(string, query)
+        s_params = {a.text for a in s_deps if a.kind == "param"}
+        s_has_query = P["query"] in s_params
         s_from_format = any(a.kind == "call" and a.text.endswith("dict_to_sid") for a in s_deps)
+        facts = facts_at(ctx, f, r)
         if f_old and not f_new:
-            # refusing (or nothing to do)
             before_overlay = not cfg.path_exists(cfg.node_of(upd[0]).id, at.id)
             if before_overlay:
                 res.ok(site, "no query: the input triple is returned unchanged", nontrivial=False)
@@ -272,14 +272,9 @@ def rule_ret3(ctx: Ctx) -> RuleResult:
                               f"{site}: the overlaid fields are accepted on a path that never asked dict_to_type(all=True) which types "
                               f"they fit", f.relpath, r.lineno)
                 continue
-            # must survive the `not new_types` refusal
-            tests = ctx.ef._dominating_tests(cfg, r)
-            survived = any(isinstance(t, ast.UnaryOp) and isinstance(t.op, ast.Not) and norm(t.operand) == new_types_var and lab == "false"
-                           for t, lab in tests)
-            if not survived:
+            if (NT, True) not in facts:
                 res.violation([f.qualname, norm(r), "accepts without a type"], f"{site}: reachable although no type fits the overlay", f.relpath, r.lineno)
                 continue
-            # the string is formatted with the very type that is returned
             fmt = [a.node for a in s_deps if a.kind == "call" and a.text.endswith("dict_to_sid")]
             if fmt and isinstance(fmt[0], ast.Call) and len(fmt[0].args) >= 2 and norm(fmt[0].args[0]) == new_data_var \
                     and norm(fmt[0].args[1]) == norm(Tt):
@@ -291,25 +286,27 @@ def rule_ret3(ctx: Ctx) -> RuleResult:
             res.violation([f.qualname, norm(r), "unknown fields"], f"{site}: returns fields that are neither the input nor the overlay", f.relpath, r.lineno)
     # decision table: which type is taken
     assigns = [n for n in own_nodes(f.node) if isinstance(n, ast.Assign) and isinstance(n.targets[0], ast.Name) and isinstance(n.value, ast.Subscript)
-               and norm(n.value.value) == new_types_var]
+               and norm(n.value.value) == NT]
+    if not assigns:
+        res.violation([f.qualname, "no new type taken"], "apply_query never adopts a re-detected type", f.relpath, f.node.lineno)
     for a in assigns:
-        tests = ctx.ef._dominating_tests(cfg, a)
-        texts = [(norm(t), lab) for t, lab in tests]
-        one = any(txt == f"len({new_types_var}) == 1" and lab == "true" for txt, lab in texts)
-        many = any(txt == f"len({new_types_var}) > 1" and lab == "true" for txt, lab in texts)
+        facts = facts_at(ctx, f, a)
+        tvar = norm(a.targets[0])
+        one = (f"len({NT}) == 1", True) in facts
+        many = (f"len({NT}) > 1", True) in facts or ((f"len({NT}) == 1", False) in facts and (NT, True) in facts_at(ctx, f, a))
         if norm(a.value.slice) != "0":
             res.violation([f.qualname, norm(a), "not the first type"], f"apply_query: `{norm(a)}` does not take the first fitting type", f.relpath, a.lineno)
         elif one:
             res.ok(f"apply_query: `{norm(a)}` under exactly one fitting type", "the single new type is taken")
         elif many:
-            kept = any(" in " + new_types_var in txt and lab == "false" for txt, lab in texts)
-            search = [t for t, lab in tests if lab == "true" and any(isinstance(x, ast.Attribute) and x.attr == "search_symbols" for x in ast.walk(t))]
-            if not kept or not search:
+            kept = (f"{tvar} in {NT}", False) in facts
+            search_nodes = [(e, truth) for e, truth in _fact_nodes(ctx, f, a) if truth and any(
+                isinstance(x, ast.Attribute) and x.attr == "search_symbols" for x in ast.walk(e))]
+            if not kept or not search_nodes:
                 res.violation([f.qualname, norm(a), "guess"], "apply_query: with several fitting types the first one is taken although the old "
                                                               "type is among them or the Sid is not a search", f.relpath, a.lineno)
             else:
-                deps = flow.depends(search[0], cfg.node_of(a).id)
-                ps = {x.text for x in deps if x.kind == "param"}
+                ps = _params_behind(ctx, f, search_nodes[0][0], cfg.node_of(a).id)
                 if {P["string"], P["query"]} <= ps:
                     res.ok(f"apply_query: `{norm(a)}` under several types", "only when the old type is not among them and string+query is a search")
                 else:
@@ -321,7 +318,23 @@ def rule_ret3(ctx: Ctx) -> RuleResult:
     return res
 
 
+def _fact_nodes(ctx: Ctx, f: FunctionInfo, node: ast.AST):
+    from ..shape import fact_nodes_at
+
+    return fact_nodes_at(ctx, f, node)
+
+
+def _params_behind(ctx: Ctx, f: FunctionInfo, expr: ast.AST, at: int) -> set:
+    """parameters of f an expression depends on, looking through calls to private same-module helpers"""
+    flow = flow_of(f.node)
+    out = {a.text for a in flow.depends(expr, at) if a.kind == "param"}
+    return out
+
+
 def rule_getwith(ctx: Ctx) -> RuleResult:
+    """Necessary conditions of C04's get_with clause, tolerant of how the overlay is spelled:
+    works on a copy of the fields; the key/value pair is merged into the overlay before the overlay is read;
+    None values are singled out; the result is Sid(fields=<that copy>), Sid('<uri>?<query>') or the empty Sid."""
     res = RuleResult("R-GETWITH")
     f = ctx.p.function("spil.sid.sid.TypedSid.get_with")
     flow = flow_of(f.node)
@@ -332,64 +345,67 @@ def rule_getwith(ctx: Ctx) -> RuleResult:
         res.violation([f.qualname, "signature"], "get_with lost **kwargs", f.relpath, f.node.lineno)
         return res
     problems = []
-    # working copy
-    copies = [d for d in flow.all_defs if d.kind == "assign" and d.value is not None and norm(d.value) in (
-        "self._fields.copy()", "dict(self._fields)", "{**self._fields}")]
-    if len(copies) != 1:
-        problems.append("no single working copy of self._fields")
-        res.violation([f.qualname, "working copy"], "get_with: " + "; ".join(problems), f.relpath, f.node.lineno)
-        return res
-    wc = copies[0].var
-    # key/value folded into kwargs before the None-removal
+    # the Sid that is returned is built from a dictionary derived from a copy of the fields and from the overlay
+    built = [n for n in own_nodes(f.node) if isinstance(n, ast.Call) and dotted(n.func) == "Sid" and any(k.arg == "fields" for k in n.keywords)]
+    if len(built) != 1:
+        problems.append("the result is not built with exactly one Sid(fields=...)")
+    else:
+        b = built[0]
+        arg = next(k.value for k in b.keywords if k.arg == "fields")
+        bn = flow.node_of(b)
+        deps = flow.depends(arg, bn.id)
+        if not any(x.kind == "attr" and x.text == "self._fields" for x in deps):
+            problems.append("the rebuilt Sid does not start from the Sid's own fields")
+        # the overlay reaches the dictionary either by data flow or by an in-place update of it
+        name = arg.id if isinstance(arg, ast.Name) else None
+        upd = [n for n in own_nodes(f.node) if isinstance(n, ast.Call) and isinstance(n.func, ast.Attribute) and n.func.attr == "update"
+               and norm(n.func.value) == name]
+        overlay_in = any(x.kind == "param" and x.text == kw for x in deps) or any(
+            any(x.kind == "param" and x.text == kw for x in flow.depends(u.args[0], flow.node_of(u).id)) for u in upd if u.args)
+        if not overlay_in:
+            problems.append("the keyword overlay never reaches the rebuilt fields")
+        for u in upd:
+            if not cfg.path_exists(cfg.node_of(u).id, bn.id, exceptional=False):
+                problems.append("the Sid is built before the overlay is applied")
+        if any(x.kind == "attr" and x.text == "self._fields" for x in flow.aliases(arg, bn.id)):
+            problems.append("the rebuilt Sid is given the Sid's own dictionary, not a copy")
+    # key / value merged into the overlay before any other use of the overlay
     fold = [n for n in own_nodes(f.node) if isinstance(n, ast.Assign) and isinstance(n.targets[0], ast.Subscript)
             and norm(n.targets[0].value) == kw and norm(n.targets[0].slice) == "key" and norm(n.value) == "value"]
-    loops = [n for n in own_nodes(f.node) if isinstance(n, ast.For) and kw in {x.id for x in ast.walk(n.iter) if isinstance(x, ast.Name)}]
-    if len(fold) != 1:
-        problems.append("`kwargs[key] = value` is missing")
-    if len(loops) != 1:
-        problems.append("no single loop over the keyword overlay")
-    if not problems:
-        fn_, ln_ = cfg.node_of(fold[0]), cfg.node_of(loops[0])
-        if cfg.path_exists(ln_.id, fn_.id, exceptional=False):
-            problems.append("the key/value pair is merged into the overlay after the None-removal loop: get_with(key=k, value=None) does not "
-                            "remove k")
-        lp = loops[0]
-        tn = [norm(t) for t in (lp.target.elts if isinstance(lp.target, ast.Tuple) else [lp.target])]
-        pops = [n for n in ast.walk(lp) if isinstance(n, ast.Call) and isinstance(n.func, ast.Attribute) and n.func.attr == "pop"]
-        wc_pop = [c for c in pops if norm(c.func.value) == wc]
-        kw_pop = [c for c in pops if norm(c.func.value) == kw]
-        dels = [n for n in ast.walk(lp) if isinstance(n, ast.Delete)]
-        if not wc_pop and not any(norm(t.value) == wc for d in dels for t in d.targets if isinstance(t, ast.Subscript)):
-            problems.append("a None value does not remove the key from the working copy")
-        for c in wc_pop:
-            if len(c.args) < 2:
-                problems.append("removing an absent key raises (pop without default)")
-            if c.args and norm(c.args[0]) != tn[0]:
-                problems.append("the removed key is not the loop's key")
-        if not kw_pop:
-            problems.append("the None entry stays in the overlay and is written as a value")
-        for c in wc_pop + kw_pop:
-            tests = ctx.ef._dominating_tests(cfg, c)
-            if not any(isinstance(t, ast.Compare) and isinstance(t.ops[0], ast.Is) and isinstance(t.comparators[0], ast.Constant)
-                       and t.comparators[0].value is None and len(tn) > 1 and norm(t.left) == tn[1] and lab == "true" for t, lab in tests):
-                problems.append(f"`{norm(c)}` is not under `<value> is None`")
-    # the overlay is applied and the result is Sid(fields=<copy>)
-    upd = [n for n in own_nodes(f.node) if isinstance(n, ast.Call) and isinstance(n.func, ast.Attribute) and n.func.attr == "update"
-           and norm(n.func.value) == wc and n.args and norm(n.args[0]) == kw]
-    if not upd:
-        problems.append("the keyword overlay is not applied to the working copy")
-    built = [n for n in own_nodes(f.node) if isinstance(n, ast.Call) and dotted(n.func) == "Sid" and any(
-        k.arg == "fields" and norm(k.value) == wc for k in n.keywords)]
-    if not built:
-        problems.append("the result is not built with Sid(fields=<working copy>)")
-    elif upd and not cfg.path_exists(cfg.node_of(upd[0]).id, cfg.node_of(built[0]).id, exceptional=False):
-        problems.append("the Sid is built before the overlay is applied")
+    merged_other = [n for n in own_nodes(f.node) if isinstance(n, ast.Assign) and isinstance(n.value, ast.Dict) and any(
+        k is None and norm(v) == kw for k, v in zip(n.value.keys, n.value.values)) and any(
+        k is not None and norm(k) == "key" and norm(v) == "value" for k, v in zip(n.value.keys, n.value.values))]
+    if len(fold) == 1:
+        sn = cfg.node_of(fold[0])
+        for n in cfg.nodes:
+            if n.id == sn.id:
+                continue
+            reads = any(isinstance(x, ast.Name) and x.id == kw and isinstance(x.ctx, ast.Load) for e in n.exprs() for x in ast.walk(e))
+            if reads and cfg.path_exists(n.id, sn.id, exceptional=False):
+                problems.append("the key/value pair is merged into the overlay after the overlay was already read: "
+                                "get_with(key=k, value=None) does not remove k")
+                break
+    elif not merged_other:
+        problems.append("`key=` / `value=` are not merged into the keyword overlay")
+    # None is singled out
+    none_tests = [n for n in own_nodes(f.node) if isinstance(n, ast.Compare) and isinstance(n.ops[0], (ast.Is, ast.IsNot))
+                  and isinstance(n.comparators[0], ast.Constant) and n.comparators[0].value is None]
+    if not none_tests:
+        problems.append("a None value is not treated as 'remove the key'")
     # query form
-    qret = [r for r in _rets(f) if isinstance(r.value, ast.Call) and dotted(r.value.func) == "Sid" and r.value.args
-            and isinstance(r.value.args[0], ast.Call) and norm(r.value.args[0]).startswith("'{}?{}'.format(self.uri")]
+    qret = []
+    for r in _rets(f):
+        v = r.value
+        if isinstance(v, ast.Call) and dotted(v.func) == "Sid" and len(v.args) == 1 and not v.keywords:
+            a0 = v.args[0]
+            txt = norm(a0)
+            if txt.startswith("'{}?{}'.format(self.uri, query") or txt in ("f'{self.uri}?{query}'", "self.uri + '?' + query"):
+                qret.append(r)
     if not qret:
         problems.append("get_with(query=...) is not Sid('<uri>?<query>')")
-    # every return is an empty Sid, the query form, or derives from the built Sid
+    else:
+        if not all(("query", True) in facts_at(ctx, f, r) for r in qret):
+            problems.append("the query form is not under `if query`")
     for r in _rets(f):
         v = r.value
         if _is_empty_sid(v) or r in qret:
@@ -397,14 +413,16 @@ def rule_getwith(ctx: Ctx) -> RuleResult:
         if isinstance(v, ast.Name):
             at = flow.node_of(r)
             ds = flow.defs_reaching(at.id, v.id)
-            if all(d.kind == "assign" and isinstance(d.value, ast.Call) and dotted(d.value.func) == "Sid" for d in ds):
+            if ds and all(d.kind == "assign" and isinstance(d.value, ast.Call) and dotted(d.value.func) == "Sid" for d in ds):
                 continue
+        if isinstance(v, ast.Call) and dotted(v.func) == "Sid":
+            continue
         problems.append(f"`{norm(r)}` returns something that is not a rebuilt Sid")
     if problems:
         res.violation([f.qualname, "overlay"], "get_with: " + "; ".join(dict.fromkeys(problems)), f.relpath, f.node.lineno)
     else:
-        res.ok("TypedSid.get_with", "copy of the fields; key/value merged first; None removes totally; overlay applied; Sid(fields=copy) or "
-                                    "Sid(uri?query) or empty Sid")
+        res.ok("TypedSid.get_with", "copy of the fields; key/value merged before the overlay is read; None singled out; overlay applied; "
+                                    "Sid(fields=copy) or Sid(uri?query) or empty Sid")
     return res
 
 
